@@ -264,6 +264,7 @@ func worldRoutes(w *World) {
 		br *bufio.Reader
 	}
 	var pool []*kconn
+	var h2sess *h2cUpgradeSession
 	httpReq := func() {
 		hostChoices := []string{"www.site.example.test", "WWW.SITE.example.test", "www.site.example.test:8080", "www.site.example.test.", "api.site.example.test", "x.site.example.test",
 			"deep.x.site.example.test", "foo.example.test", "unknown.test", "www.other.example.test", "site.example.test"}
@@ -328,40 +329,130 @@ func worldRoutes(w *World) {
 			reqUser = proxyUser
 		}
 		want := refMatch(live, "http", host, path, reqUser)
-		// pick or open a keep-alive connection
-		var kc *kconn
-		if len(pool) > 0 && r.Intn(3) != 0 {
-			kc = pool[r.Intn(len(pool))]
-		} else {
-			ip := fmt.Sprintf("10.0.3.%d", 30+len(pool)%200)
-			c, err := simnet.DialFrom(ip, fmt.Sprintf("10.0.0.1:%d", vport), 10*time.Second)
+		// request form: HTTP/1.1 on a keep-alive connection (mostly), HTTP/1.0 on a connection of its own, or HTTP/2
+		// over clear text with prior knowledge (the vhost wraps its handler with h2c)
+		form := []string{"1.1", "1.1", "1.1", "1.1", "1.0", "h2c", "h2c-upgrade", "h2c-upgrade"}[r.Intn(8)]
+		if strings.HasPrefix(form, "h2c") && absolute {
+			form = "1.1" // HTTP/2 has no absolute-form targets
+		}
+		if form == "h2c" && share {
+			// on a port shared with the control protocol the first bytes decide who gets the connection, and the
+			// HTTP/2 preface is not among the HTTP methods recognised there: only the upgrade form can be used
+			form = "h2c-upgrade"
+		}
+		var got *rawMsg
+		switch form {
+		case "h2c":
+			w.Probe("routes.form_h2c")
+			var hh [][2]string
+			hh = append(hh, [2]string{"X-Marker", marker})
+			for _, h := range hs {
+				if i := strings.Index(h, ": "); i > 0 {
+					hh = append(hh, [2]string{h[:i], h[i+2:]})
+				}
+			}
+			st, sb, err := h2cGet(fmt.Sprintf("10.0.3.%d", 230+r.Intn(10)), fmt.Sprintf("10.0.0.1:%d", vport), host, target, hh, 20*time.Second)
+			if err != nil {
+				hist("GET(h2c) %s host=%s -> error %v", target, host, err)
+				if want != nil && want.authUser == "" {
+					viol("C06", "route", "matched-request-not-served", "h2c GET %s Host %s user %q matches route %s but got no answer: %v; history: %v", target, host, reqUser, want.id(), err, history)
+				}
+				return
+			}
+			got = &rawMsg{Status: st}
+			if sb != "" {
+				got.Headers = append(got.Headers, hdr{"X-Served-By", sb})
+			}
+		case "h2c-upgrade":
+			// HTTP/2 over clear text obtained with the HTTP/1.1 Upgrade mechanism: the first request of the session is
+			// an HTTP/1.1 request that asks for the switch, the following ones are streams of the same connection
+			var hh [][2]string
+			hh = append(hh, [2]string{"X-Marker", marker})
+			for _, h := range hs {
+				if i := strings.Index(h, ": "); i > 0 {
+					hh = append(hh, [2]string{h[:i], h[i+2:]})
+				}
+			}
+			var resp *h2Resp
+			var err error
+			if h2sess == nil {
+				w.Probe("routes.form_h2c_upgrade_first")
+				h2sess, resp, err = h2cUpgrade(fmt.Sprintf("10.0.3.%d", 240+r.Intn(10)), fmt.Sprintf("10.0.0.1:%d", vport), host, target, hh, 20*time.Second)
+			} else {
+				w.Probe("routes.form_h2c_upgrade_next")
+				resp, err = h2sess.Get(host, target, hh, 20*time.Second)
+				if err != nil || r.Intn(4) == 0 {
+					h2sess.Close()
+					h2sess = nil
+				}
+			}
+			if resp == nil {
+				hist("GET(%s) %s host=%s -> error %v", form, target, host, err)
+				if want != nil && want.authUser == "" {
+					viol("C06", "route", "matched-request-not-served", "GET %s Host %s user %q on an h2c connection (HTTP/1.1 upgrade) matches route %s but got no answer: %v; history: %v", target, host, reqUser, want.id(), err, history)
+				}
+				return
+			}
+			got = &rawMsg{Status: resp.Status}
+			if resp.ServedBy != "" {
+				got.Headers = append(got.Headers, hdr{"X-Served-By", resp.ServedBy})
+			}
+		case "1.0":
+			w.Probe("routes.form_http10")
+			c, err := simnet.DialFrom(fmt.Sprintf("10.0.3.%d", 220+r.Intn(10)), fmt.Sprintf("10.0.0.1:%d", vport), 10*time.Second)
 			if err != nil {
 				viol("C06", "connect", "vhost-port-refused", "%v", err)
 				return
 			}
-			kc = &kconn{c, bufio.NewReader(c)}
-			pool = append(pool, kc)
-		}
-		fmt.Fprintf(kc.c, "GET %s HTTP/1.1\r\nHost: %s\r\nX-Marker: %s\r\n%s\r\n", target, host, marker, strings.Join(append(hs, ""), "\r\n"))
-		kc.c.SetReadDeadline(time.Now().Add(20 * time.Second))
-		got, err := readRawMsg(kc.br, false, false)
-		if err != nil && got == nil {
-			// drop the connection from the pool
-			for i, p := range pool {
-				if p == kc {
-					pool = append(pool[:i], pool[i+1:]...)
-					break
+			fmt.Fprintf(c, "GET %s HTTP/1.0\r\nHost: %s\r\nX-Marker: %s\r\n%s\r\n", target, host, marker, strings.Join(append(hs, ""), "\r\n"))
+			c.SetReadDeadline(time.Now().Add(20 * time.Second))
+			var err2 error
+			got, err2 = readRawMsg(bufio.NewReader(c), false, false)
+			c.Close()
+			if err2 != nil && got == nil {
+				hist("GET(1.0) %s host=%s -> error %v", target, host, err2)
+				if want != nil && want.authUser == "" {
+					viol("C06", "route", "matched-request-not-served", "HTTP/1.0 GET %s Host %s user %q matches route %s but got no answer: %v; history: %v", target, host, reqUser, want.id(), err2, history)
 				}
+				return
 			}
-			kc.c.Close()
-			hist("GET %s host=%s -> error %v", target, host, err)
-			if want != nil && want.authUser == "" {
-				viol("C06", "route", "matched-request-not-served", "GET %s Host %s user %q matches route %s but got no answer: %v; history: %v", target, host, reqUser, want.id(), err, history)
+		default:
+			// pick or open a keep-alive connection
+			var kc *kconn
+			if len(pool) > 0 && r.Intn(3) != 0 {
+				kc = pool[r.Intn(len(pool))]
+			} else {
+				ip := fmt.Sprintf("10.0.3.%d", 30+len(pool)%200)
+				c, err := simnet.DialFrom(ip, fmt.Sprintf("10.0.0.1:%d", vport), 10*time.Second)
+				if err != nil {
+					viol("C06", "connect", "vhost-port-refused", "%v", err)
+					return
+				}
+				kc = &kconn{c, bufio.NewReader(c)}
+				pool = append(pool, kc)
 			}
-			return
+			fmt.Fprintf(kc.c, "GET %s HTTP/1.1\r\nHost: %s\r\nX-Marker: %s\r\n%s\r\n", target, host, marker, strings.Join(append(hs, ""), "\r\n"))
+			kc.c.SetReadDeadline(time.Now().Add(20 * time.Second))
+			var err error
+			got, err = readRawMsg(kc.br, false, false)
+			if err != nil && got == nil {
+				// drop the connection from the pool
+				for i, p := range pool {
+					if p == kc {
+						pool = append(pool[:i], pool[i+1:]...)
+						break
+					}
+				}
+				kc.c.Close()
+				hist("GET %s host=%s -> error %v", target, host, err)
+				if want != nil && want.authUser == "" {
+					viol("C06", "route", "matched-request-not-served", "GET %s Host %s user %q matches route %s but got no answer: %v; history: %v", target, host, reqUser, want.id(), err, history)
+				}
+				return
+			}
 		}
 		served := strings.Join(got.get("X-Served-By"), ",")
-		hist("GET %s host=%s user=%q abs=%v auth=%q/%q proxyauth=%q -> %d %s", target, host, reqUser, absolute, authUser, authPwd, proxyUser, got.Status, served)
+		hist("GET(%s) %s host=%s user=%q abs=%v auth=%q/%q proxyauth=%q -> %d %s", form, target, host, reqUser, absolute, authUser, authPwd, proxyUser, got.Status, served)
 		// who saw the marker?
 		var sawBy []string
 		var sawRoute *route
@@ -570,6 +661,9 @@ func worldRoutes(w *World) {
 	}
 	for _, kc := range pool {
 		kc.c.Close()
+	}
+	if h2sess != nil {
+		h2sess.Close()
 	}
 	w.SetSample(map[string]any{"routes_registered": nextName, "ops": nops, "history_tail": history})
 	w.Nontrivial()
